@@ -117,6 +117,7 @@ Definition mon_C16 (o : cli_obs) : bool :=
   match c_outdir o, c_sentinel_ok o with
   | ODExisting, Some ok => ok && Nat.eqb (length (c_files o)) 1
   | ODExisting, None => Nat.eqb (length (c_files o)) 0      (* existed and was empty: still empty *)
+  | ODExistingForce, Some ok => pre_error o || negb ok      (* --force: what was there is gone *)
   | _, _ => true
   end &&
   (* success: one stdout line, conforming JSON, files present *)
@@ -219,7 +220,7 @@ Definition mon_C07 (o : cli_obs) : bool :=
   negb (c_failed_to_reap o).
 
 (** ** C15 *)
-Definition mon_C15 (o : cli_obs) : bool := negb (c_panicked o) && negb (c_timed_out o) && c_verbose_same o.
+Definition mon_C15 (o : cli_obs) : bool := negb (c_panicked o) && negb (c_timed_out o) && c_verbose_same o && within_deadline o.
 
 (** ** C14 (files) *)
 Definition row_val (r : N * N * json * option f64) : option f64 := snd r.
@@ -279,7 +280,8 @@ Definition mon_C14 (o : cli_obs) : bool :=
   match c_bestfile o, min_row (c_rows o) with
   | Some bj, Some m => true
   | None, Some _ => match c_outdir o with ODNone => true | _ => negb (existsb (String.eqb "detailed_report.csv") (c_files o)) end
-  | _, None => true
+  | Some _, None => false     (* a best-seen file although no record has a value (e.g. left over from an earlier run) *)
+  | None, None => negb (existsb (String.eqb "best_seen.json") (c_files o)) || pre_error o
   end &&
   match c_bestfile o, min_row (c_rows o) with
   | Some bj, Some m => existsb (fun r => match row_val r with Some x => feq x m && jeq (row_json r) bj | None => false end) (c_rows o)
